@@ -20,7 +20,7 @@ from . import base
 from .common import ADV_R, Cn, lit
 
 PROPERTY = "C08"
-DEPTH = {"quick": 3, "thorough": 4}
+DEPTH = {"quick": 3, "thorough": 3}  # parts A-C; the thorough tier adds part D (depth 4 over a core alphabet)
 COLS = [["k", "int"], ["g", "int"], ["x", "int"]]
 T_ROWS = [
     [[1, 1, 5], [2, 1, None], [3, None, 2], [4, 2, 2], [5, 2, 3]],
@@ -202,6 +202,8 @@ def make_explorer(world, depth=3, part="A"):
     if part == "C":
         return X.Explorer(world, alphabet=lambda st, hist: REDUCED + [["filter", [["gt", Cn("w"), lit(1)]]], ["ungroup"]], checks=[check_c08],
                           depth=depth, oracle="both", names="list", size=size)
+    if part == "D":
+        return X.Explorer(world, alphabet=core_alphabet, checks=[check_c08], depth=depth, oracle="both", names="list", size=size)
     if part == "B":
         return X.Explorer(world, alphabet=alphabet_b(depth), checks=[check_c08], depth=depth, oracle="both", names="list", size=size)
     return X.Explorer(world, alphabet=alphabet, checks=[check_c08], depth=depth, oracle="both", names="list", size=size)
@@ -210,12 +212,23 @@ def make_explorer(world, depth=3, part="A"):
 N_FIRST = len(ALPHABET) + 1
 
 
+# part D (thorough): one verb deeper than part A over the core of the clause-placement alphabet
+CORE_IDX = [0, 2, 3, 4, 5, 6, 7, 8, 9, 10, 11, 12, 16, 19, 20, 22]
+
+
+def core_alphabet(st, hist):
+    core = [ALPHABET[i] for i in CORE_IDX]
+    if len(hist) > 1 and hist[-1][0] == "alias":
+        return core
+    return [ALIAS] + core
+
+
 def tasks(tier):
     out = []
     for wi in range(len(worlds(tier))):
-        if tier == "thorough" and wi > 0:
-            continue
         out += [{"world": wi, "first": [i]} for i in range(N_FIRST)]
+    if tier == "thorough":
+        out += [{"world": 0, "first": [i], "part": "D"} for i in range(len(CORE_IDX) + 1)]
     out += [{"world": 0, "first": [i], "part": "B"} for i in range(len(REDUCED))]
     out += [{"world": 0, "first": None, "part": "C", "root": i} for i in range(len(PART_C_ROOTS))]
     return out
@@ -228,7 +241,7 @@ def run_task(task, tier):
         root = PART_C_ROOTS[task["root"]]
         d = size(root) + 2
         return base.run_history_task(lambda ww: make_explorer(ww, d, "C"), w, root, None, params={"depth": d, "part": "C"})
-    d = DEPTH[tier] + (1 if part == "B" else 0)
+    d = DEPTH[tier] + (1 if part in ("B", "D") else 0)
     return base.run_history_task(lambda ww: make_explorer(ww, d, part), w, [["source", "T"]], task["first"],
                                  params={"depth": d, "part": part})
 
@@ -246,7 +259,9 @@ def describe(tier):
         "depth": DEPTH[tier],
         "part_B": {"alphabet": [T.py_event(e) for e in REDUCED], "depth": DEPTH[tier] + 1,
                    "alias": "only directly before the last verb"},
-        "input_family": "2 adversarial tables (nulls, duplicates, ties)" if tier == "quick" else "1 adversarial table (5 rows; nulls, duplicates)",
+        "part_D": ({"alphabet": [T.py_event(ALPHABET[i]) for i in CORE_IDX], "depth": DEPTH[tier] + 1, "alias": "free before every position", "input": "first table"}
+                   if tier == "thorough" else "thorough tier only"),
+        "input_family": "2 adversarial tables (nulls, duplicates, ties)",
         "backends": ["polars", "sqlite"],
         "invariants": ["polars never raises SubqueryError", "SQLite verb call returns or raises SubqueryError",
                        "accepted => SQLite frame == polars frame == reference model",
